@@ -268,6 +268,8 @@ class TTGen:
     def try_block(self, depth=1):
         r = self.rnd
         kinds = [k for k in ('undo', 'stop') if self.feat(k)]
+        if getattr(self, 'kinds_override', None):
+            kinds = self.kinds_override
         kind = r.choice(kinds)
         self.preempt_budget = self.cfg['max_preempts']
         exits = self.exit_makers()
@@ -425,8 +427,12 @@ class TTGen:
         self.ints = []
         body = [decl('int', loc, self.int_expr(0)), self.marker()]
         self.ints = [loc]
+        # which handler kinds a function uses is decided per function: whole-program facts such as
+        # "the first try/stop is compiled after this defeat function" need functions that differ
+        self.kinds_override = r.choice((None, None, ['stop'], ['undo']))
         for _ in range(r.randrange(1, 3)):
             body += self.segment()
+        self.kinds_override = None
         if rt != 'empty':
             body.append(self.return_stmt())
         self.funcs.append(func(rt, name, self.std_params(), *body))
@@ -463,8 +469,10 @@ class TTGen:
         body = [decl('int', 'x0', V('q0')), decl('int', 'x1', V('q1')), decl('int', 'x2', I(r.randrange(0, 4))),
                 decl(arr('int'), 'ar', ('arr', (V('q0'), I(r.randrange(5)), V('q1'))), True),
                 decl(arr('bool'), 'bi', ('arr', tuple(B(r.random() < 0.5) for _ in range(4))), True)]
+        self.kinds_override = r.choice((None, None, None, ['undo'], ['stop']))
         for _ in range(self.cfg['n_segments']):
             body += self.segment()
+        self.kinds_override = None
         body += self.dump()
         if self.feat('canary'):
             body += self.canary()
